@@ -78,7 +78,8 @@ def _get_or_create_user(ctx, user_id):
     return user
 
 
-def _create_consumer(ctx, consumer_uuid, project, user, consumer_type_id):
+def _create_consumer(ctx, consumer_uuid, project, user, consumer_type_id,
+                     expect_new=False):
     created_new_consumer = False
     try:
         consumer = consumer_obj.Consumer(
@@ -95,7 +96,21 @@ def _create_consumer(ctx, consumer_uuid, project, user, consumer_type_id):
             # The request that created the consumer has failed and removed
             # it again in the meantime: start over.
             return _create_consumer(
-                ctx, consumer_uuid, project, user, consumer_type_id)
+                ctx, consumer_uuid, project, user, consumer_type_id,
+                expect_new=expect_new)
+        if expect_new:
+            # The caller told us (consumer_generation null) that it expects
+            # the consumer not to exist, but another request created it after
+            # we looked it up: a generation conflict. Leave the other
+            # request's consumer untouched.
+            raise webob.exc.HTTPConflict(
+                'consumer generation conflict - '
+                'expected %(expected_gen)s but got %(got_gen)s' %
+                {
+                    'expected_gen': consumer.generation,
+                    'got_gen': None,
+                },
+                comment=errors.CONCURRENT_UPDATE)
         # If the types don't match, update the consumer record
         if consumer_type_id != consumer.consumer_type_id:
             LOG.debug("Supplied consumer type for consumer %s was "
@@ -173,19 +188,8 @@ def ensure_consumer(ctx, consumer_uuid, project_id, user_id,
         # No such consumer. This is common for new allocations. Create the
         # consumer record
         consumer, created_new_consumer = _create_consumer(
-            ctx, consumer_uuid, proj, user, cons_type_id)
-        if requires_consumer_generation and not created_new_consumer:
-            # Another request created the consumer after we looked it up.
-            # The caller told us (consumer_generation null) that it expects
-            # the consumer not to exist, so this is a generation conflict.
-            raise webob.exc.HTTPConflict(
-                'consumer generation conflict - '
-                'expected %(expected_gen)s but got %(got_gen)s' %
-                {
-                    'expected_gen': consumer.generation,
-                    'got_gen': consumer_generation,
-                },
-                comment=errors.CONCURRENT_UPDATE)
+            ctx, consumer_uuid, proj, user, cons_type_id,
+            expect_new=requires_consumer_generation)
 
     # Also return the project, user, and consumer type from the request to use
     # for rollbacks.
